@@ -200,6 +200,73 @@ impl Dfs {
     }
 }
 
+/// The same set of schedules as `Dfs` (preemption bound), enumerated from a worklist in random order: when the
+/// run cap ends the enumeration early, the preemption points tried are spread over the whole run instead of
+/// clustering at its end. Meant for bound <= 1 (every pending prefix is kept in memory).
+pub struct Worklist {
+    queue: Vec<(Vec<u8>, usize)>,
+    cur: (Vec<u8>, usize),
+    pub bound: usize,
+    started: bool,
+    pub exhausted: bool,
+    /// children were discarded because the worklist was full: the enumeration is a sample
+    pub dropped: bool,
+    rng: StdRng,
+}
+
+const WL_MAX: usize = 150_000;
+
+impl Worklist {
+    pub fn new(bound: usize, seed: u64) -> Worklist {
+        Worklist { queue: Vec::new(), cur: (Vec::new(), 0), bound, started: false, exhausted: false, dropped: false,
+                   rng: StdRng::seed_from_u64(seed) }
+    }
+
+    pub fn next_prefix(&mut self) -> Option<Vec<usize>> {
+        if !self.started {
+            self.started = true;
+            return Some(Vec::new());
+        }
+        if self.queue.is_empty() {
+            self.exhausted = !self.dropped;
+            return None;
+        }
+        let i = self.rng.gen_range(0..self.queue.len());
+        self.cur = self.queue.swap_remove(i);
+        Some(self.cur.0.iter().map(|x| *x as usize).collect())
+    }
+
+    pub fn record(&mut self, steps: &[StepInfo]) {
+        let plen = self.cur.0.len();
+        for i in 0..plen {
+            if i >= steps.len() || steps[i].chosen != self.cur.0[i] as usize {
+                return;
+            }
+        }
+        let mut pre = self.cur.1;
+        let chosen: Vec<u8> = steps.iter().map(|s| s.chosen as u8).collect();
+        for (i, s) in steps.iter().enumerate().skip(plen) {
+            for &t in &s.enabled {
+                if t != s.chosen && Some(t) != s.spin && pre + cost(s.cont, t) <= self.bound {
+                    if self.queue.len() >= WL_MAX {
+                        // keep a uniform sample: the newcomer replaces a random entry half of the time
+                        self.dropped = true;
+                        if self.rng.gen_bool(0.5) {
+                            continue;
+                        }
+                        let j = self.rng.gen_range(0..self.queue.len());
+                        self.queue.swap_remove(j);
+                    }
+                    let mut p = chosen[..i].to_vec();
+                    p.push(t as u8);
+                    self.queue.push((p, pre + cost(s.cont, t)));
+                }
+            }
+            pre += cost(s.cont, s.chosen);
+        }
+    }
+}
+
 pub fn preemptions(steps: &[StepInfo]) -> usize {
     steps.iter().map(|s| cost(s.cont, s.chosen)).sum()
 }
@@ -246,6 +313,11 @@ impl Source for Freeze {
                     self.countdown = self.rng.gen_range(1..40);
                 }
             }
+        }
+        // a moment at which some thread is inside a lock-protected section is a good one to freeze everybody
+        // (the thread that is about to start a call is not the holder: it is between two calls)
+        if self.countdown > 0 && v.held > 0 && v.pend.iter().any(|p| p.1 == K::Call) && self.rng.gen_bool(0.5) {
+            self.countdown = 0;
         }
         if self.countdown == 0 {
             // freeze: pick a thread that is about to start a call
